@@ -202,13 +202,33 @@ for tag, (cpp, n, sg) in INT_TYPES.items():
     e_floor = [('largest_multiple_not_above_x', lambda c: 'spec_is_floor_multiple%s(%s, %s, %s)' % (w, mv(tag, c['R']), mv(tag, c['x']), mv(tag, c['m'])))]
     e_near = [('nearest_multiple_either_on_tie', lambda c: 'spec_is_nearest_multiple%s(%s, %s, %s)' % (w, mv(tag, c['R']), mv(tag, c['x']), mv(tag, c['m'])))]
     dm = d_mw if tag in ('i32', 'i64') else d_mu
+    if n >= 32:
+        # 32/64-bit: neither SAT nor z3/cvc5 decides these division identities over the full range (probed: > 900 s).  What is
+        # claimed instead are two embedded 8-bit problems, each exhaustive: x and m multiples of 2^(n-8) (the top byte: sign,
+        # range ends, overflow) and |x|, m below 2^8 (the low byte); scalar forms only; reported as bounded.
+        low = (1 << (n - 8)) - 1
+        sub = [('_top8', 'x, m multiples of 2^%d' % (n - 8),
+                lambda c: '(%s & 0x%xull) == 0 && (%s & 0x%xull) == 0' % (c['x'], low, c['m'], low)),
+               ('_low8', '|x|, m < 2^8',
+                lambda c: ('(%s)%s >= -128 && (%s)%s <= 127' % (S(tag), c['x'], S(tag), c['x']) if sg else '%s <= 255' % c['x']) + ' && %s <= %d' % (c['m'], 127 if sg else 255))]
+        vv = [('T', 'x'), ('T', 'm')]
+        for ss, btxt, bf in sub:
+            bq = ('bounded_subdomain', bf)
+            kw = dict(backends=('sat',), timeout=900, tier='thorough', bounded=btxt)
+            gen(dm, 'isMultiple', F_EXT, tag, 0, vv, 'bool', [mpos, bq], e_is, label='isMultiple' + ss, **kw)
+            gen(dm, 'nextMultiple', F_EXT, tag, 0, vv, 'T', [mpos, cfit, bq], e_ceil, label='nextMultiple' + ss, **kw)
+            gen(dm, 'prevMultiple', F_EXT, tag, 0, vv, 'T', [mpos, ffit, bq], e_floor, label='prevMultiple' + ss, **kw)
+            gen(dm, 'ceilMultiple', F_RND, tag, 0, vv, 'T', [mpos, cfit, bq], e_ceil, label='ceilMultiple' + ss, **kw)
+            gen(dm, 'floorMultiple', F_RND, tag, 0, vv, 'T', [mpos, ffit, bq], e_floor, label='floorMultiple' + ss, **kw)
+            gen(dm, 'roundMultiple', F_RND, tag, 0, vv, 'T', [mpos, nfit, bq], e_near, label='roundMultiple' + ss, **kw)
+        continue
     for L in shapes(tag):
         if n == 8:
             kw = dict(backends=('sat',), timeout=300, tier='quick' if L == 0 else 'thorough')
-        elif n == 16:
-            kw = dict(backends=('sat',), timeout=3600, tier='thorough')
+        elif L == 0:
+            kw = dict(backends=('sat',), timeout=3600, tier='thorough')   # 16-bit: 5-12 min each on cadical
         else:
-            kw = dict(backends=('z3', 'cvc5'), timeout=120, tier='thorough')
+            continue   # 16-bit vector forms: about 4 x the scalar cost per obligation, not run (P.not_covered)
         vv = [('T', 'x'), ('T', 'm')]
         fx = F_EXTV if L else F_EXT
         forms = [(None, vv)] + ([('_scalarMultiple', [('T', 'x'), ('Ts', 'm')])] if L else [])   # ext: vector source, scalar multiple
@@ -307,15 +327,15 @@ for tin, tout in (('u8', 'u16'), ('u16', 'u32'), ('u32', 'u64')):
 # value-bounded: each function has a small-bound contract in the per-change tier and a larger one in the thorough tier
 # (two shims of the same call, because a contract is keyed by its shim).
 XI = dict(build=B[d_gx.name])
-for sfx_, ymax, tier_ in (('_y4', 4, 'quick'), ('', 12, 'thorough')):
+for sfx_, ymax, tier_ in (('_y3', 3, 'quick'), ('', 12, 'thorough')):
     d_gx.shim('glm_pow_i32' + sfx_, 'int32_t', [('int32_t', 'x'), ('uint8_t', 'y')], 'return glm::pow(x, static_cast<glm::uint>(y));')
     d_gx.shim('glm_pow_u32' + sfx_, 'uint32_t', [('uint32_t', 'x'), ('uint8_t', 'y')], 'return glm::pow(x, static_cast<glm::uint>(y));')
     P.contract('glm_pow_i32' + sfx_, 'glm::pow(int, uint)  ' + F_XI, unwind=ymax + 2, bounded='y <= %d' % ymax, backends=('sat', 'z3'), timeout=300, tier=tier_,
                requires=[('exponent_bound', 'y <= %d' % ymax), ('result_representable', 'spec_ipow_fits_s32((s64)(s32)x, y)')],
-               ensures=[('x_to_the_y_exact', '(s64)(s32)RESULT == spec_ipow_s32((s64)(s32)x, y, %d)' % ymax)], **XI)
+               ensures=[('x_to_the_y_exact', 'RESULT == spec_pow_wrap32(x, y, %d)' % ymax)], **XI)
     P.contract('glm_pow_u32' + sfx_, 'glm::pow(uint, uint)  ' + F_XI, unwind=ymax + 2, bounded='y <= %d' % ymax, backends=('sat', 'z3'), timeout=300, tier=tier_,
                requires=[('exponent_bound', 'y <= %d' % ymax), ('result_representable', 'spec_upow_fits_u32((u64)x, y)')],
-               ensures=[('x_to_the_y_exact', '(u64)RESULT == spec_upow_u32((u64)x, y, %d)' % ymax)], **XI)
+               ensures=[('x_to_the_y_exact', 'RESULT == spec_pow_wrap32(x, y, %d)' % ymax)], **XI)
 for sfx_, xmax, unw, tier_ in (('_x255', 255, 12, 'quick'), ('', 65535, 20, 'thorough')):
     d_gx.shim('glm_sqrt_i32' + sfx_, 'int32_t', [('int32_t', 'x')], 'return glm::sqrt(x);')
     d_gx.shim('glm_sqrt_u32' + sfx_, 'uint32_t', [('uint32_t', 'x')], 'return glm::sqrt(x);')
@@ -325,15 +345,19 @@ for sfx_, xmax, unw, tier_ in (('_x255', 255, 12, 'quick'), ('', 65535, 20, 'tho
     P.contract('glm_sqrt_u32' + sfx_, 'glm::sqrt(uint)  ' + F_XI, unwind=unw, bounded='x <= %d' % xmax, backends=('sat', 'z3'), timeout=600, tier=tier_,
                requires=[('x_bounded', 'x <= %d' % xmax)],
                ensures=[('floor_sqrt_exact', 'spec_is_floor_sqrt((u64)RESULT, (u64)x)')], **XI)
-d_gx.shim('glm_mod_i32', 'int32_t', [('int32_t', 'x'), ('int32_t', 'y')], 'return glm::mod(x, y);')
-d_gx.shim('glm_mod_u32', 'uint32_t', [('uint32_t', 'x'), ('uint32_t', 'y')], 'return glm::mod(x, y);')
 d_gx.shim('glm_nlz_u32', 'uint32_t', [('uint32_t', 'x')], 'return glm::nlz(x);')
-P.contract('glm_mod_i32', 'glm::mod(int, int)  ' + F_XI, backends=('z3', 'cvc5'), timeout=120, tier='thorough',
-           requires=[('divisor_nonzero', 'y != 0'), ('remainder_defined_in_cxx', '!(x == 0x80000000u && y == 0xffffffffu)')],
-           ensures=[('x_minus_y_floor_x_over_y', 'spec_is_floor_mod((s64)(s32)RESULT, (s64)(s32)x, (s64)(s32)y)')], **XI)
-P.contract('glm_mod_u32', 'glm::mod(uint, uint)  ' + F_XI, backends=('z3', 'cvc5'), timeout=120, tier='thorough',
-           requires=[('divisor_nonzero', 'y != 0')],
-           ensures=[('x_minus_y_floor_x_over_y', 'spec_is_floor_mod((s64)RESULT, (s64)x, (s64)y)')], **XI)
+# mod exists for int / unsigned int only; the full 32-bit range is not decided by any back end (probed), so as for the
+# multiples two embedded 8-bit problems are claimed, each exhaustive and reported as bounded
+for ss, btxt, bi, bu in (('_top8', 'x, y multiples of 2^24', '(x & 0xffffffu) == 0 && (y & 0xffffffu) == 0', '(x & 0xffffffu) == 0 && (y & 0xffffffu) == 0'),
+                         ('_low8', '|x|, |y| < 2^8', '(s32)x >= -128 && (s32)x <= 127 && (s32)y >= -128 && (s32)y <= 127', 'x <= 255 && y <= 255')):
+    d_gx.shim('glm_mod_i32' + ss, 'int32_t', [('int32_t', 'x'), ('int32_t', 'y')], 'return glm::mod(x, y);')
+    d_gx.shim('glm_mod_u32' + ss, 'uint32_t', [('uint32_t', 'x'), ('uint32_t', 'y')], 'return glm::mod(x, y);')
+    P.contract('glm_mod_i32' + ss, 'glm::mod(int, int)  ' + F_XI, backends=('sat',), timeout=900, tier='thorough', bounded=btxt,
+               requires=[('divisor_nonzero', 'y != 0'), ('remainder_defined_in_cxx', '!(x == 0x80000000u && y == 0xffffffffu)'), ('bounded_subdomain', bi)],
+               ensures=[('x_minus_y_floor_x_over_y', 'spec_is_floor_mod((s64)(s32)RESULT, (s64)(s32)x, (s64)(s32)y)')], **XI)
+    P.contract('glm_mod_u32' + ss, 'glm::mod(uint, uint)  ' + F_XI, backends=('sat',), timeout=900, tier='thorough', bounded=btxt,
+               requires=[('divisor_nonzero', 'y != 0'), ('bounded_subdomain', bu)],
+               ensures=[('x_minus_y_floor_x_over_y', 'spec_is_floor_mod((s64)RESULT, (s64)x, (s64)y)')], **XI)
 P.contract('glm_nlz_u32', 'glm::nlz(uint)  ' + F_XI, unwind=67,
            ensures=[('number_of_leading_zeros', 'RESULT == spec_nlz((u64)x, 32)')], **XI)
 
@@ -345,8 +369,27 @@ P.level_note = ('trusted: clang-14 lowering, ll2c (T-checked), CBMC bit-vector s
                 'and the .hpp doc comments (self-tested against brute force at 8 bit)')
 P.technique = 'CBMC code contracts (DFCC enforce) on mechanically extracted C; SAT/SMT bit-precise'
 P.design_ref = 'DESIGN.md section 6 C18'
-P.assumptions = []
-P.not_covered = []
+P.assumptions = [
+    'the shim table (function x element type x shape) is the instantiation set covered; other instantiations are not verified',
+    'power-of-two family: domain x > 0 and result representable (x <= 2^(vb-1) for ceil/next/Above, x <= 3*2^(vb-2) for round/Nearest, vb = value bits)',
+    'multiples: domain Multiple > 0 and result representable in the type (the doc comment "null or positive" is read as positive: 0 divides by zero)',
+    'bitfieldRotateLeft/Right: 0 <= Shift < width for 8/16-bit types, 1 <= Shift < width for 32/64-bit types (Shift == 0 executes a shift by the full width, undefined behaviour: C20)',
+    'bitfieldFillOne/Zero: 0 <= FirstBit < width, 0 <= BitCount, FirstBit + BitCount <= width; mask: 0 <= Bits <= width; findNSB: significantBitCount >= 1',
+    'signed 32/64-bit multiples are extracted and replayed with -fwrapv (signed overflow wraps); all other code with the default flags, where ll2c also reads nsw/nuw overflow as wrapping',
+    'gtx mod(int,int): INT_MIN % -1 excluded (undefined in C++: C20)',
+    'gtx factorial / pow: the loop-bounding argument (x resp. y) reaches the GLM function through an 8-bit shim parameter and a value-preserving conversion, so that the T-check terminates on random inputs',
+    'gtx pow: "x^y representable" is taken from a table of integer roots (spec_ipow_fits_s32 / spec_upow_fits_u32), cross-checked natively against exact 64-bit powers',
+]
+P.not_covered = [
+    'float/double overloads of ceilMultiple, floorMultiple, roundMultiple: they call std::fmod, for which CBMC 6.11 has no faithful model (fmodf(7,3) != 1 there); observed natively and reported in proposed/C18_report.md: ceilMultiple(6.f,3.f) == 9, floorMultiple(-6.f,3.f) == -9, roundMultiple(-1.4,0.3) == -0.6',
+    'negative arguments of the signed power-of-two family: GLM follows a sign-magnitude convention there (ceilPowerOfTwo(-3) == -4 is pinned by test/gtc/gtc_round.cpp; isPowerOfTwo(-4) is true; floor/round/prev use findMSB of a negative value) that the statement does not describe; like the value at 0 it is not claimed',
+    '%-based functions (isMultiple, next/prev/ceil/floor/roundMultiple) on 32/64-bit types over their full range, and gtx mod(int/uint) over the full range: no back end finishes (sat, z3, cvc5 probed, > 900 s); claimed instead, as bounded, on two embedded exhaustive 8-bit sub-domains (arguments multiples of 2^(n-8); arguments below 2^8), scalar forms only',
+    '%-based functions at 16 bit in vector form (component-wise functor2 application of the proved scalar function): ~4 x 5-12 min per obligation, not run; the 8-bit vector forms are proved',
+    'gtx pow for y > 12, sqrt for x > 65535, factorial for x > 12: value-bounded loops (reported as bounded below these limits)',
+    'gtx floor_log2: declared in gtx/integer.hpp but its definition is commented out (does not link)',
+    'bitfieldRotate with Shift == 0 on 32/64-bit types and bitfieldFill with FirstBit == width: shift by the full width (C20)',
+    'glm/simd/integer.h (SSE2 interleave): covered by C03',
+]
 
 import os
 if os.environ.get('C18_PROBE'):   # development aid: run thorough-tier contracts with their declared timeouts
